@@ -94,10 +94,13 @@ Fixpoint join_go (sep : str) (first : bool) (l : list json) : option str :=
   | _ => None
   end.
 Definition join_sem (vals : list (option json)) : option json :=
-  let sep := match arg vals 1%nat with Some (JStr s) => s | _ => [44; 32] end in
-  match arg vals 0%nat with
-  | Some (JArr l) => option_map JStr (join_go sep true l)
-  | _ => None
+  let osep := match vals with
+              | _ :: _ :: _ => match arg vals 1%nat with Some (JStr s) => Some s | _ => None end
+              | _ => Some [44; 32]
+              end in
+  match osep, arg vals 0%nat with
+  | Some sep, Some (JArr l) => option_map JStr (join_go sep true l)
+  | _, _ => None
   end.
 
 (* sum: f64 additions. Modelled only where every addition is exact: all items integers of
